@@ -703,6 +703,11 @@ func validFiles(rng *rand.Rand) map[string][]string {
 	out["stockholm"] = append(out["stockholm"], "# STOCKHOLM 1.0\n#=GF ID x\n#=GS a AC 1\na ACGT\n#=GR a SS ....\nb AC-T\n#=GC SS_cons ....\n//\n")
 	out["clustal"] = append(out["clustal"], "CLUSTAL W (1.82) multiple sequence alignment\n\n\na      ACGT 4\nb      AC-T 4\n       ** *\n\na      GG 6\nb      GA 6\n       * \n")
 	out["fasta"] = append(out["fasta"], ">  spaced name\nACGT\n> b\nAC-T\n")
+	// a name field holding a multi-byte character (strict Phylip reads ten characters), a declared count no slice can
+	// hold, Nexus rows made of a name only (no NCHAR declared)
+	out["phylipstrict"] = append(out["phylipstrict"], "2 4\n\xc3\xa9aaaaaaaaaACGT\nbbbbbbbbbbAC-T\n")
+	out["phylip"] = append(out["phylip"], "99999999999999 4\na  ACGT\nb  AC-T\n")
+	out["nexus"] = append(out["nexus"], "#NEXUS\nBEGIN DATA;\nMATRIX\na\nb\n;\nEND;\n")
 	out["partition"] = []string{"DNA, p1 = 1-4\nDNA, p2 = 5-12\n", "M1, c1 = 1-12/3\nM1, c2 = 2-12/3\nM2, c3 = 3-12/3\n", "WAG, g1 = 1-3, 7-9\nLG, g2 = 4-6,10-12\n", "DNA,p=1-6/2,7-12\nDNA,q=2-6/2\n"}
 	return out
 }
